@@ -239,6 +239,22 @@ mod imp {
         }
     }
 
+    fn pat_free_slots(p: &Pat, bound: &mut Vec<S>, out: &mut Vec<S>) {
+        if let Pat::Node { slots, kids, .. } = p {
+            for x in slots {
+                if !bound.contains(x) && !out.contains(x) {
+                    out.push(*x);
+                }
+            }
+            for (b, k) in kids {
+                let n = bound.len();
+                bound.extend(b.iter().copied());
+                pat_free_slots(k, bound, out);
+                bound.truncate(n);
+            }
+        }
+    }
+
     /// is (l, r) an instance of the rule lp => rp (in either orientation of the equation)?
     fn is_rule_instance(lp: &Pat, rp: &Pat, c: &Eqn) -> bool {
         for (a, b) in [(&c.0, &c.1), (&c.1, &c.0)] {
@@ -250,9 +266,32 @@ mod imp {
             let mut vars = BTreeMap::new();
             let mut names = BTreeMap::new();
             if pat_match(lp, a, &mut slotmap, &mut vars, &mut Vec::new(), &mut names) {
-                if let Some(ri) = inst_side(rp, &slotmap, &vars, &names, &mut Vec::new()) {
-                    if ri.alpha_eq(b) {
-                        return true;
+                // free slots that only the right pattern has stand for any slots not used otherwise
+                let mut ls = Vec::new();
+                let mut rs = Vec::new();
+                pat_free_slots(lp, &mut Vec::new(), &mut ls);
+                pat_free_slots(rp, &mut Vec::new(), &mut rs);
+                let only_r: Vec<S> = rs.into_iter().filter(|x| !ls.contains(x)).collect();
+                let cands: Vec<S> = b.free().into_iter().filter(|x| !slotmap.values().any(|y| y == x)).collect();
+                let mut assignments: Vec<BTreeMap<S, S>> = vec![slotmap.clone()];
+                for x in &only_r {
+                    let mut next = Vec::new();
+                    for m in &assignments {
+                        for c in &cands {
+                            if !m.values().any(|y| y == c) {
+                                let mut m2 = m.clone();
+                                m2.insert(*x, *c);
+                                next.push(m2);
+                            }
+                        }
+                    }
+                    assignments = next;
+                }
+                for m in assignments {
+                    if let Some(ri) = inst_side(rp, &m, &vars, &names, &mut Vec::new()) {
+                        if ri.alpha_eq(b) {
+                            return true;
+                        }
                     }
                 }
             }
